@@ -3015,6 +3015,9 @@ def _sat_formula(f):
         return True
 
 
+WEAK_EQ_ATTRS = None     # attribute names of repo classes that define __eq__ (set by reference_status from the program model)
+
+
 def stale_memo(sm, new_locs):
     """of the locations a function newly keeps between calls, those that can go STALE by the look of the code: some exit returns
     what is stored there under a condition that reads nothing of the object's state (it tests only that the memo is filled, or
@@ -3076,6 +3079,35 @@ def stale_memo(sm, new_locs):
                 out.append("the result is decided by %s alone (`%s` when `%s`: no test that tells a hit from a miss reads anything else of the object's state), while what is kept there depends on %s"
                            % (loc, it.head[:40], " and ".join(telling)[:70], ", ".join(sorted(computed_from))[:80]))
                 break
+            # a WEAK key: the tests that tell a hit from a miss look at a container only through its LENGTH, or compare it with a
+            # kept copy whose elements compare by identity, while the miss path computes the kept value from the elements
+            if telling:
+                ttxt = " ; ".join(hide(a) for a in telling)
+                only_len = {m_.group(1) for m_ in re.finditer(r"len\(([A-Za-z_][\w.]*)\)", ttxt)}
+                deep = state_reads(re.sub(r"len\([A-Za-z_][\w.]*\)", "0", ttxt), {loc})
+                walked = {}
+                for it2 in sm.items:
+                    m2 = re.match(r"^loop\d+ for (\(?[_\w, ]+\)?) in (.+)$", it2.head) if it2.kind == "loop-iter" else None
+                    if m2 and (miss in (True, False) or entails(it2.cond, miss)):
+                        walked[m2.group(2).strip()] = m2.group(1)
+                for path_, var_ in walked.items():
+                    base_ = re.sub(r"^(enumerate|list|tuple|iter|reversed)\((.*)\)$", r"\2", path_)
+                    if base_ in only_len and base_ not in deep:
+                        out.append("a hit is decided by the LENGTH of %s (`%s`), while what is kept in %s is computed from its elements: changing an element leaves the kept value in use"
+                                   % (base_, " and ".join(telling)[:80], loc))
+                        break
+                    if base_ in deep and WEAK_EQ_ATTRS is not None:
+                        vars_ = [v_.strip() for v_ in var_.strip("()").split(",")]
+                        used = set()
+                        for it3 in sm.items:
+                            for v_ in vars_:
+                                used |= set(re.findall(r"(?<![\w.])%s\.([A-Za-z_]\w*)" % re.escape(v_), it3.head))
+                        if used and not (used & WEAK_EQ_ATTRS):
+                            out.append("a hit is decided by comparing %s with a kept copy (`%s`); its elements (read through .%s) define no equality, so they compare by identity: changing an element in place leaves the kept value in %s in use"
+                                       % (base_, " and ".join(telling)[:80], ", .".join(sorted(used))[:40], loc))
+                            break
+                if out:
+                    break
     return out
 
 
@@ -3237,10 +3269,10 @@ def _condition_mutation(f_code, f_ref, all_code=None, all_ref=None, extra=()):
     """the two conditions test the same things (or the same but for one constant / operator) and still differ"""
     atoms = lambda f: set(a for a in (gi.f_opaques(f) if f not in (True, False) else []) if isinstance(a, str))
     a, b = atoms(f_code), atoms(f_ref)
-    if "'set'" in repr(f_code) or "'set'" in repr(f_ref):
-        return True             # value-set atoms are decided exactly
     if a == b:
-        return True
+        return True             # the same tests (value-set atoms are decided exactly by the truth table) combined differently
+    if ("'set'" in repr(f_code) or "'set'" in repr(f_ref)) and len(a - b) <= len(b - a):
+        return True             # value sets differ, and the function gained no more tests than it lost (an exchange or a drop, not a new case split)
     only_a, only_b = sorted(a - b), sorted(b - a)
     if len(only_a) == len(only_b) == 1 and _mutation_like(only_b[0], only_a[0], 2):
         from . import refute
@@ -3532,6 +3564,15 @@ def reference_status(ctx, fi, ref_source, ref_names, int_names=None, leaf=None, 
                 details = [("source", "token", " , ".join(a for a, _b in sm_), " , ".join(b for _a, b in sm_), 1.0)] + list(details)
         if status != "same":
             ns = new_state(s_code, s_ref, getattr(fi.node, "name", ""), tree)
+            global WEAK_EQ_ATTRS
+            if WEAK_EQ_ATTRS is None:
+                WEAK_EQ_ATTRS = set()
+                for ci in ctx.p.classes.values() if hasattr(ctx.p, "classes") else []:
+                    if "__eq__" in ci.methods:
+                        for m_ in ci.methods.values():
+                            for n_ in ast.walk(m_.node):
+                                if isinstance(n_, ast.Attribute) and isinstance(n_.ctx, ast.Store) and isinstance(n_.value, ast.Name) and n_.value.id == "self":
+                                    WEAK_EQ_ATTRS.add(n_.attr)
             stale = stale_memo(s_code, ns) if ns else []
             if stale:
                 # whatever else changed: the function now keeps something between calls that the reviewed one did not, and hands
